@@ -16,6 +16,7 @@ import (
 	"encoding/json"
 	"fmt"
 	"sort"
+	"strings"
 	"time"
 
 	"verif/rt/vrt"
@@ -36,26 +37,27 @@ type Replay struct {
 	Unit    string          `json:"unit"`
 	Choices []int           `json:"choices,omitempty"`
 	FPs     []uint32        `json:"state_fingerprints,omitempty"` // one per choice: the replay must pass through the same states
+	YieldAt []string        `json:"yield_at,omitempty"`           // race-directed units: the locations whose accesses are scheduling points
 	Input   json.RawMessage `json:"input,omitempty"`
 	Trace   []string        `json:"trace,omitempty"`
 }
 
 // Result is what a worker reports for its shard of one property.
 type Result struct {
-	Property    string              `json:"property"`
-	Tier        string              `json:"tier"`
-	Evaluations int64               `json:"evaluations"`
-	States      int64               `json:"states"`
-	Transitions int64               `json:"transitions"`
-	Outcomes    map[string]int64    `json:"outcomes"` // distinct observation hash -> count
-	NonTrivial  map[string]bool     `json:"nontrivial"`
-	Samples     []any               `json:"samples"`
-	Findings    []*Finding          `json:"findings"`
+	Property    string               `json:"property"`
+	Tier        string               `json:"tier"`
+	Evaluations int64                `json:"evaluations"`
+	States      int64                `json:"states"`
+	Transitions int64                `json:"transitions"`
+	Outcomes    map[string]int64     `json:"outcomes"` // distinct observation hash -> count
+	NonTrivial  map[string]bool      `json:"nontrivial"`
+	Samples     []any                `json:"samples"`
+	Findings    []*Finding           `json:"findings"`
 	Units       map[string]*UnitStat `json:"units"`
-	Exhaustive  bool                `json:"exhaustive"`
-	Caps        []string            `json:"caps"`
-	Notes       []string            `json:"notes"`
-	WallS       float64             `json:"wall_s"`
+	Exhaustive  bool                 `json:"exhaustive"`
+	Caps        []string             `json:"caps"`
+	Notes       []string             `json:"notes"`
+	WallS       float64              `json:"wall_s"`
 }
 
 type UnitStat struct {
@@ -211,9 +213,9 @@ func Hash(parts ...string) string {
 // Scenario is one closed harness: Body runs as the main harness thread of a fresh
 // execution; Check inspects the finished execution.
 type Scenario struct {
-	Name  string
-	Opt   vrt.Options
-	Body  func()
+	Name string
+	Opt  vrt.Options
+	Body func()
 	// Check returns an observation string (hashed for the distinct-outcome count),
 	// whether the execution was non-trivial (threads really interacted), and findings.
 	Check func(x *vrt.Exec) (obs string, nontrivial bool, findings []*Finding)
@@ -225,12 +227,12 @@ type SConfig struct {
 	// With FreeSwitch only preemptions (switching away from a thread that could continue) are
 	// counted, CHESS-style; otherwise every non-default thread choice counts (delay bounding).
 	// Data choices (select cases, environment answers) are always free and always branched.
-	Bound      int
-	FreeSwitch bool
-	Shard    int
-	NShards  int
-	Deadline time.Time
-	MaxExecs int64 // per shard; 0 = none
+	Bound                int
+	FreeSwitch           bool
+	Shard                int
+	NShards              int
+	Deadline             time.Time
+	MaxExecs             int64 // per shard; 0 = none
 	ContinueAfterFinding bool
 	// BothPolicies explores the deviation-bounded neighbourhood of two base schedules instead of
 	// one: the default scheduler that prefers the lowest-numbered enabled thread and the one that
@@ -297,6 +299,38 @@ func ExploreS(ctx *Ctx, sc *Scenario, cfg SConfig) {
 		ExploreS(ctx, &rev, cfg)
 		return
 	}
+	names := exploreS1(ctx, sc, cfg)
+	if len(names) > 0 && sc.Opt.YieldAt == nil {
+		// race-directed second phase. Scheduling points at synchronisation operations are enough
+		// only for race-free code; the monitor found conflicting accesses unordered by
+		// happens-before, so the scenario is explored again with every access to those locations
+		// as a scheduling point: the consequences of the race (a torn two-pass read, a stale
+		// check) become schedules of their own. Not sharded: only the shards whose part of the
+		// first phase met the race know its locations.
+		ctx.Res.Note("unit %s: conflicting accesses unordered by happens-before on %v: explored again with these accesses as scheduling points (unit %s#race)", sc.Name, names, sc.Name)
+		rv := *sc
+		rv.Name = sc.Name + "#race"
+		rv.Opt.YieldAt = map[string]bool{}
+		for _, n := range names {
+			rv.Opt.YieldAt[n] = true
+		}
+		c2 := cfg
+		c2.Shard, c2.NShards = 0, 1
+		exploreS1(ctx, &rv, c2)
+	}
+}
+
+// exploreS1 is one exploration of sc; it returns the names of the locations found in data races.
+func exploreS1(ctx *Ctx, sc *Scenario, cfg SConfig) []string {
+	raceNames := map[string]bool{}
+	racy := func() []string {
+		var out []string
+		for n := range raceNames {
+			out = append(out, n)
+		}
+		sort.Strings(out)
+		return out
+	}
 	res := ctx.Res
 	us := res.unit(sc.Name, "S")
 	if cfg.Bound < 0 {
@@ -320,6 +354,9 @@ func ExploreS(ctx *Ctx, sc *Scenario, cfg SConfig) {
 		execs++
 		res.Evaluations++
 		us.Evaluations++
+		for _, r := range x.Races {
+			raceNames[r.Names[0]], raceNames[r.Names[1]] = true, true
+		}
 		newNodes := int64(len(x.Points) - len(prefix) + 1)
 		if newNodes < 1 {
 			newNodes = 1
@@ -369,7 +406,7 @@ func ExploreS(ctx *Ctx, sc *Scenario, cfg SConfig) {
 			}
 			for _, f := range fs {
 				f.Unit = sc.Name
-				f.Replay = Replay{Unit: sc.Name, Choices: x.Choices(), FPs: x.Fingerprints(), Trace: tr}
+				f.Replay = Replay{Unit: sc.Name, Choices: x.Choices(), FPs: x.Fingerprints(), Trace: tr, YieldAt: yieldNames(sc)}
 				res.AddFinding(f)
 			}
 		} else if len(res.Samples) < 3 && (nontrivial || execs == 1) {
@@ -447,22 +484,22 @@ func ExploreS(ctx *Ctx, sc *Scenario, cfg SConfig) {
 		res.Exhaustive = false
 		for _, c := range res.Caps {
 			if c == "time cap hit: some units not started" {
-				return
+				return nil
 			}
 		}
 		res.Caps = append(res.Caps, "time cap hit: some units not started")
-		return
+		return nil
 	}
 	n := cfg.NShards
 	if n <= 1 {
 		dfs(branch{})
 		us.Distinct = len(distinct)
-		return
+		return racy()
 	}
 	// level 0
 	root := runOne(branch{}, cfg.Shard == 0)
 	if root.Diverged != "" {
-		return
+		return nil
 	}
 	for _, c1 := range children(root, nil) {
 		if stop {
@@ -482,6 +519,16 @@ func ExploreS(ctx *Ctx, sc *Scenario, cfg SConfig) {
 		}
 	}
 	us.Distinct = len(distinct)
+	return racy()
+}
+
+func yieldNames(sc *Scenario) []string {
+	var out []string
+	for n := range sc.Opt.YieldAt {
+		out = append(out, n)
+	}
+	sort.Strings(out)
+	return out
 }
 
 func trunc(s string, n int) string {
@@ -543,14 +590,24 @@ func SortedKeys[V any](m map[string]V) []string {
 // tracing on and returns its findings (with the schedule attached).
 func ReplayScenario(scs []*Scenario, rp Replay) []*Finding {
 	for _, sc := range scs {
-		if sc.Name+"#rev" == rp.Unit {
+		unit := strings.TrimSuffix(rp.Unit, "#race")
+		if sc.Name+"#rev" == unit {
 			rev := *sc
-			rev.Name = rp.Unit
+			rev.Name = unit
 			rev.Opt.Policy = 1
 			sc = &rev
 		}
-		if sc.Name != rp.Unit {
+		if sc.Name != unit {
 			continue
+		}
+		if unit != rp.Unit {
+			rd := *sc
+			rd.Name = rp.Unit
+			rd.Opt.YieldAt = map[string]bool{}
+			for _, n := range rp.YieldAt {
+				rd.Opt.YieldAt[n] = true
+			}
+			sc = &rd
 		}
 		x := RunOnceFP(sc, rp.Choices, rp.FPs, true)
 		fs := StandardFindings(sc, x)
@@ -561,7 +618,7 @@ func ReplayScenario(scs []*Scenario, rp Replay) []*Finding {
 		tr := x.DumpSchedule()
 		for _, f := range fs {
 			f.Unit = sc.Name
-			f.Replay = Replay{Unit: sc.Name, Choices: rp.Choices, FPs: rp.FPs, Trace: tr}
+			f.Replay = Replay{Unit: sc.Name, Choices: rp.Choices, FPs: rp.FPs, Trace: tr, YieldAt: rp.YieldAt}
 		}
 		return fs
 	}
